@@ -33,6 +33,9 @@ type SpecFunc struct {
 	Body   Expr
 	Opaque bool
 	Text   string
+	Mode   Mode     // with HasMode: the body is only expanded in units of this mode
+	HasMode bool
+	Reads  []string // for functions that are uninterpreted in other modes: what state they depend on
 }
 
 type GhostField struct {
@@ -488,12 +491,26 @@ func parseSpecFunc(rest string) (*SpecFunc, error) {
 		sf.Params = append(sf.Params, Binder{fs[0], fs[1]})
 	}
 	rest = strings.TrimSpace(rest[j+1:])
-	k := strings.Index(rest, "=")
+	k := strings.Index(rest, " = ")
 	if k < 0 {
-		return nil, fmt.Errorf("spec func %s: missing =", sf.Name)
+		return nil, fmt.Errorf("spec func %s: missing ' = '", sf.Name)
 	}
-	sf.Result = strings.TrimSpace(rest[:k])
-	e, err := ParseExpr(rest[k+1:])
+	head := strings.TrimSpace(rest[:k])
+	if i := strings.Index(head, " reads "); i >= 0 {
+		for _, it := range splitTop(head[i+7:]) {
+			sf.Reads = append(sf.Reads, strings.TrimSpace(it))
+		}
+		head = strings.TrimSpace(head[:i])
+	}
+	if strings.HasSuffix(head, " mode bv") {
+		sf.Mode, sf.HasMode = ModeBV, true
+		head = strings.TrimSpace(strings.TrimSuffix(head, " mode bv"))
+	} else if strings.HasSuffix(head, " mode int") {
+		sf.Mode, sf.HasMode = ModeInt, true
+		head = strings.TrimSpace(strings.TrimSuffix(head, " mode int"))
+	}
+	sf.Result = head
+	e, err := ParseExpr(rest[k+3:])
 	if err != nil {
 		return nil, err
 	}
